@@ -1602,7 +1602,7 @@ positive returns a Boolean value indicative of whether the specified
 cfgFlag input value is "on" within the receiver's configuration
 value.
 */
-func (r stack) positive(x cfgFlag) bool {
+func (r *stack) positive(x cfgFlag) bool {
 	cfg, _ := r.config()
 	result := cfg.positive(x)
 	return result
@@ -1656,7 +1656,7 @@ func (r Stack) CanMutex() (can bool) {
 /*
 canMutex is a private method called by [Stack.CanMutex].
 */
-func (r stack) canMutex() bool {
+func (r *stack) canMutex() bool {
 	sc, _ := r.config()
 	return sc.mtx != nil
 }
